@@ -23,7 +23,11 @@ package main
 // the Go standard library calendar, 12-hour and elapsed consistency, thousands grouping.
 
 import (
+	"archive/zip"
+	"bytes"
+	"encoding/xml"
 	"fmt"
+	"io"
 	"math"
 	"math/big"
 	"os"
@@ -1005,6 +1009,27 @@ func c10checkDate(r *Run, out, value string, d1904 bool, tpl c10dt, rep, via str
 var c10sysDateTags = []string{"[$-F800]", "[$-x-sysdate]", "[$-1010000]", "[$-f800]"}
 var c10sysTimeTags = []string{"[$-F400]", "[$-x-systime]"}
 
+// c10hhmmOK: s is hh:mm of the serial's instant (seconds floored or rounded to the nearest second).
+func c10hhmmOK(s, value string) bool {
+	x, ok := c10exact(value)
+	if !ok || x.Sign() < 0 {
+		return true
+	}
+	secsR := new(big.Rat).Mul(x, big.NewRat(86400, 1))
+	fl := new(big.Int).Quo(secsR.Num(), secsR.Denom())
+	nr := new(big.Int).Quo(new(big.Int).Add(new(big.Int).Mul(secsR.Num(), big.NewInt(2)), secsR.Denom()), new(big.Int).Mul(secsR.Denom(), big.NewInt(2)))
+	for _, t := range []*big.Int{fl, nr} {
+		if !t.IsInt64() {
+			return true
+		}
+		rem := t.Int64() % 86400
+		if s == fmt.Sprintf("%02d:%02d", rem/3600, rem%3600/60) {
+			return true
+		}
+	}
+	return false
+}
+
 // c10optDate: a date template is installed as an Options pattern and reached through a system tag
 // (or a built-in id for the short pattern); the text GetCellValue returns must show the fields of
 // the serial in the workbook's date system. Also emitted as a transcript line (hook + model).
@@ -1024,6 +1049,18 @@ func c10optDate(r *Run, value string, d1904 bool, ti int, kind string, tagi int)
 	case "short14":
 		o.short = tpl.code
 		id = 14
+	case "short22": // applyBuiltInNumFmt: ShortDatePattern + " hh:mm"
+		if strings.HasPrefix(tpl.kind, "ampm") {
+			return // an AM/PM marker in the pattern turns the appended hh into a 12-hour reading, as in Excel
+		}
+		o.short = tpl.code
+		id = 22
+	case "shortlang": // langNumFmtFuncEnUS: ids 27..31 and 50..58 follow ShortDatePattern
+		o.short = tpl.code
+		id = []int{27, 28, 29, 30, 31, 50, 51, 52, 53, 54, 55, 56, 57, 58}[tagi%14]
+	case "longtimelang": // langNumFmtFuncEnUS: ids 32..35 follow LongTimePattern
+		o.longTime = tpl.code
+		id = 32 + tagi%4
 	default:
 		return
 	}
@@ -1069,7 +1106,17 @@ func c10optDate(r *Run, value string, d1904 bool, ti int, kind string, tagi int)
 		if isNum, prec, dec := xl.VerifC10IsNumeric(value); !isNum || prec > 15 || strconv.FormatFloat(dec, 'f', -1, 64) != value {
 			return // the cell reader would normalise the stored text first
 		}
-		c10checkDate(r, strings.TrimPrefix(res.s, "ok:"), value, d1904, tpl, rep, ":options-"+kind+":GetCellValue", 0)
+		out := strings.TrimPrefix(res.s, "ok:")
+		if kind == "short22" {
+			// the pattern's rendering, a blank, then hh:mm of the same instant
+			i := strings.LastIndex(out, " ")
+			if i < 0 || !c10hhmmOK(out[i+1:], value) {
+				r.Fail("date:fields:hhmm:options-short22:GetCellValue", fmt.Sprintf("%q as id 22 with ShortDatePattern %q date1904=%v = %q: it must end with a blank and hh:mm of the serial", value, tpl.code, d1904, out), 0, rep)
+				return
+			}
+			out = out[:i]
+		}
+		c10checkDate(r, out, value, d1904, tpl, rep, ":options-"+kind+":GetCellValue", 0)
 	default:
 		r.Fail("optdate:error", fmt.Sprintf("GetCellValue of %q (%s=%q): %s", value, kind, tpl.code, res.s), 0, rep)
 	}
@@ -1540,6 +1587,9 @@ func runC10(r *Run, rng *Rng, replay string) {
 	c10optDate(r, "43543.50320601852", true, 0, "longdate", 1)
 	c10optDate(r, "45000.75", true, 0, "longtime", 0)
 	c10optDate(r, "45000.75", true, 0, "short14", 0)
+	c10optDate(r, "45000.75", false, 0, "short22", 0)
+	c10optDate(r, "45000.75", true, 9, "shortlang", 3)
+	c10optDate(r, "45000.75", false, 0, "longtimelang", 1)
 	for i := 0; i < 120*scale; i++ {
 		day := rng.Pick2([]int{61, 62, 366, 1462, 36526, 43831, 45000, 73050, 100000, rng.Range(61, 2900000)})
 		v := fmt.Sprintf("%d.%s", day, rng.Pick([]string{"0", "5", "25", "75", "125", "50320601852", fmt.Sprintf("%05d", rng.Intn(100000))}))
@@ -1547,7 +1597,7 @@ func runC10(r *Run, rng *Rng, replay string) {
 			v = strconv.FormatFloat(f, 'f', -1, 64)
 		}
 		ti := rng.Pick2([]int{0, 1, 3, 4, 5, 9, 10})
-		kind := rng.Pick([]string{"longdate", "longdate", "longtime", "short14"})
+		kind := rng.Pick([]string{"longdate", "longdate", "longtime", "short14", "short22", "shortlang", "longtimelang"})
 		c10optDate(r, v, rng.Bool(), ti, kind, rng.Intn(4))
 	}
 	// options on arbitrary codes (transcript): patterns x tags x cultures without an era calendar
@@ -1577,7 +1627,29 @@ func runC10(r *Run, rng *Rng, replay string) {
 		o := &c10o{culture: rng.Pick2([]int{0, 1, 1, 4, 4}), short: rng.Pick([]string{"", "", "yyyy/m/d", "d.m.yy"}), longTime: rng.Pick([]string{"", "", "h:mm:ss AM/PM"}),
 			longDate: rng.Pick([]string{"", "", "dddd, mmmm dd, yyyy"})}
 		v := rng.Pick([]string{"43831.75", "0.5", "1234.5678", "-1234.5678", "0", "abc", "45000.25", "1462", "61.5", "0.256", "-0.5"})
-		c10glue(r, rng.Chance(30), !rng.Chance(8), id, o, v)
+		var customs [][2]string
+		if rng.Chance(35) {
+			// custom <numFmt> elements, some with an id that is also built-in, some declared twice
+			cid := rng.Pick2([]int{id, id, 164, 165, 14, 2})
+			customs = [][2]string{{strconv.Itoa(cid), rng.Pick([]string{"0.000", "#,##0.0", "yyyy\"-\"mm", "\"c:\"0", "0.0%", "[Red]0.00;(0.0)"})}}
+			if rng.Chance(40) {
+				customs = append(customs, [2]string{strconv.Itoa(cid), "\"second\"0"})
+			}
+			if rng.Chance(50) {
+				id = cid
+			}
+		}
+		if rng.Chance(40) {
+			v = rng.Pick([]string{"1.50", "1E3", "1.5e-3", "0012.5", "+7", "1234567890.1234567", "0.1234567890123456789", "12345678901234567890", "-0.50", "1e22", "1e21", "123456789012345678"})
+		}
+		c10glue(r, rng.Chance(30), !rng.Chance(8), id, o, v, customs)
+	}
+	// 6d. the cell reader's normalisation of numeric text (unstyled cells)
+	for _, v := range c10values {
+		c10norm(r, v)
+	}
+	for i := 0; i < 400*scale; i++ {
+		c10norm(r, c10randValue(rng))
 	}
 	// 7. locales: every language id / code through AM/PM, month and weekday tokens
 	ids, codes := xl.VerifC10LanguageCodes()
@@ -1636,8 +1708,14 @@ func c10replay(r *Run, path string) {
 			c10fmt(r, c10mk(w[1] == "1", w[2] == "1", unhx(w[3]), unhx(w[4]), &c10o{atoi(w[5]), unhx(w[6]), unhx(w[7]), unhx(w[8])}))
 		case w[0] == "optdate" && len(w) == 6:
 			c10optDate(r, unhx(w[2]), w[1] == "1", atoi(w[3]), w[4], atoi(w[5]))
-		case w[0] == "glue" && len(w) == 9:
-			c10glue(r, w[1] == "1", w[2] == "1", atoi(w[3]), &c10o{atoi(w[4]), unhx(w[5]), unhx(w[6]), unhx(w[7])}, unhx(w[8]))
+		case w[0] == "glue" && len(w) >= 9 && len(w)%2 == 1:
+			var customs [][2]string
+			for k := 9; k+1 < len(w); k += 2 {
+				customs = append(customs, [2]string{w[k], unhx(w[k+1])})
+			}
+			c10glue(r, w[1] == "1", w[2] == "1", atoi(w[3]), &c10o{atoi(w[4]), unhx(w[5]), unhx(w[6]), unhx(w[7])}, unhx(w[8]), customs)
+		case w[0] == "norm" && len(w) == 2:
+			c10norm(r, unhx(w[1]))
 		case w[0] == "bcode" && len(w) == 5:
 			c10bcode(r, atoi(w[1]), unhx(w[2]), unhx(w[3]), atoi(w[4]))
 		case w[0] == "comma" && len(w) == 2:
@@ -1891,20 +1969,166 @@ func c10bcode(r *Run, cu int, short, lt string, id int) {
 	r.Stat("transcript:bcode")
 }
 
-// c10glue: NewStyle{NumFmt: id} (or no style) on a File with options; the text GetCellValue returns
-// must be format(code) for the code formattedValue resolves to, raw when there is none.
-func c10glue(r *Run, d1904, styled bool, id int, o *c10o, value string) {
-	rep := fmt.Sprintf("glue %s %s %d %d %s %s %s %s", b01(d1904), b01(styled), id, o.culture, hx(o.short), hx(o.longDate), hx(o.longTime), hx(value))
-	if isNum, prec, dec := xl.VerifC10IsNumeric(value); isNum && (prec > 15 || strconv.FormatFloat(dec, 'f', -1, 64) != value) {
+// c10normal replicates getValueFrom's re-rendering of numeric text (the model side recomputes it from
+// the binary64 and the comparison with the real reader's output is the transcript): fields for the op line.
+func c10normal(raw string) (val, fields string) {
+	isNum, prec, dec := xl.VerifC10IsNumeric(raw)
+	short := strconv.FormatFloat(dec, 'f', -1, 64)
+	val = raw
+	if isNum {
+		val = short
+		if prec > 15 {
+			val = strconv.FormatFloat(dec, 'G', 15, 64)
+		}
+	}
+	return val, fmt.Sprintf("%s %s %d %016x %s", hx(raw), b01(isNum), prec, math.Float64bits(dec), hx(short))
+}
+
+// c10norm: GetCellValue of an unstyled cell holding `raw` = the normalised text.
+func c10norm(r *Run, raw string) {
+	rep := "norm " + hx(raw)
+	_, fields := c10normal(raw)
+	res := c10guard(func() string {
+		f := xl.NewFile()
+		defer f.Close()
+		if err := f.SetCellDefault("Sheet1", "A1", raw); err != nil {
+			panic(err)
+		}
+		got, err := f.GetCellValue("Sheet1", "A1")
+		if err != nil {
+			panic(err)
+		}
+		return got
+	})
+	out := "PANIC"
+	if res.panic == "" && !res.hang {
+		out = "ok " + hx(res.s)
+	}
+	ln := r.Op("norm "+fields, out)
+	r.Case(rep, true)
+	r.Stat("transcript:norm")
+	if res.panic != "" || res.hang {
+		r.Fail("norm:panic", fmt.Sprintf("GetCellValue of an unstyled cell holding %q panics: %s", raw, res.panic), ln, rep)
 		return
 	}
+	// model-free: the text read denotes the stored number — exactly up to 15 significant digits,
+	// to half a unit of the 15th significant digit (plus binary64 representation) beyond
+	x, ok := c10exact(raw)
+	y, ok2 := c10exact(res.s)
+	if !ok {
+		return
+	}
+	if xf, _ := x.Float64(); math.IsInf(xf, 0) || (xf == 0) != (x.Sign() == 0) {
+		return
+	}
+	if !ok2 {
+		r.Fail("norm:not-a-number", fmt.Sprintf("unstyled cell %q reads %q", raw, res.s), ln, rep)
+		return
+	}
+	if x.Sign() == 0 {
+		if y.Sign() != 0 {
+			r.Fail("norm:value-changed", fmt.Sprintf("unstyled cell %q reads %q", raw, res.s), ln, rep)
+		}
+		return
+	}
+	// decimal exponent of the leading digit of |x|
+	ax := new(big.Rat).Abs(x)
+	e := 0
+	ten := big.NewRat(10, 1)
+	for t := new(big.Rat).Set(ax); t.Cmp(ten) >= 0; t.Quo(t, ten) {
+		e++
+	}
+	for t := new(big.Rat).Set(ax); t.Cmp(big.NewRat(1, 1)) < 0; t.Mul(t, ten) {
+		e--
+	}
+	half := big.NewRat(1, 2) // half a unit of the 15th significant digit: 0.5 * 10^(e-14)
+	p := new(big.Rat).SetInt(c10pow10(int(math.Abs(float64(e - 14)))))
+	if e-14 >= 0 {
+		half.Mul(half, p)
+	} else {
+		half.Quo(half, p)
+	}
+	xf, _ := ax.Float64()
+	ulp := new(big.Rat).SetFloat64(math.Nextafter(xf, math.Inf(1)) - xf)
+	if ulp == nil {
+		ulp = new(big.Rat)
+	}
+	lim := new(big.Rat).Add(half, ulp)
+	diff := new(big.Rat).Sub(x, y)
+	diff.Abs(diff)
+	if diff.Cmp(lim) > 0 {
+		r.Fail("norm:value-changed", fmt.Sprintf("unstyled cell %q reads %q: off by %s, more than half a unit of the 15th significant digit", raw, res.s, diff.FloatString(30)), ln, rep)
+	} else {
+		r.Stat("norm-ok")
+	}
+}
+
+// c10customXLSX: a workbook whose styles part declares the given custom <numFmt> elements (document
+// order) and one cell style (index 1) that uses number format id `id`; cell A1 holds `raw`.
+func c10customXLSX(id int, customs [][2]string, raw string) []byte {
+	f := xl.NewFile()
+	_ = f.SetCellDefault("Sheet1", "A1", raw)
+	buf, err := f.WriteToBuffer()
+	f.Close()
+	if err != nil {
+		panic(err)
+	}
+	var nf strings.Builder
+	if len(customs) > 0 {
+		fmt.Fprintf(&nf, `<numFmts count="%d">`, len(customs))
+		for _, c := range customs {
+			var esc bytes.Buffer
+			_ = xml.EscapeText(&esc, []byte(c[1]))
+			fmt.Fprintf(&nf, `<numFmt numFmtId="%s" formatCode="%s"/>`, c[0], strings.ReplaceAll(esc.String(), `"`, "&quot;"))
+		}
+		nf.WriteString(`</numFmts>`)
+	}
+	styles := `<?xml version="1.0" encoding="UTF-8" standalone="yes"?>` +
+		`<styleSheet xmlns="http://schemas.openxmlformats.org/spreadsheetml/2006/main">` + nf.String() +
+		`<fonts count="1"><font><sz val="11"/><name val="Calibri"/></font></fonts>` +
+		`<fills count="1"><fill><patternFill patternType="none"/></fill></fills>` +
+		`<borders count="1"><border><left/><right/><top/><bottom/><diagonal/></border></borders>` +
+		`<cellStyleXfs count="1"><xf numFmtId="0" fontId="0" fillId="0" borderId="0"/></cellStyleXfs>` +
+		`<cellXfs count="2"><xf numFmtId="0" fontId="0" fillId="0" borderId="0" xfId="0"/>` +
+		fmt.Sprintf(`<xf numFmtId="%d" fontId="0" fillId="0" borderId="0" xfId="0" applyNumberFormat="1"/>`, id) +
+		`</cellXfs></styleSheet>`
+	zr, err := zip.NewReader(bytes.NewReader(buf.Bytes()), int64(buf.Len()))
+	if err != nil {
+		panic(err)
+	}
+	var out bytes.Buffer
+	zw := zip.NewWriter(&out)
+	for _, zf := range zr.File {
+		w, _ := zw.Create(zf.Name)
+		if zf.Name == "xl/styles.xml" {
+			_, _ = w.Write([]byte(styles))
+			continue
+		}
+		rc, _ := zf.Open()
+		_, _ = io.Copy(w, rc)
+		rc.Close()
+	}
+	_ = zw.Close()
+	return out.Bytes()
+}
+
+// c10glue: a styled (or unstyled) cell on a File with options; the text GetCellValue returns must be
+// format(code) of the NORMALISED stored text for the code formattedValue resolves to, raw when there is
+// none. customs == nil: style through NewStyle{NumFmt:id}; otherwise a styles part with these custom
+// <numFmt> elements (ids may collide with built-in ids: the custom one wins) and a cell style using id.
+func c10glue(r *Run, d1904, styled bool, id int, o *c10o, value string, customs [][2]string) {
+	rep := fmt.Sprintf("glue %s %s %d %d %s %s %s %s", b01(d1904), b01(styled), id, o.culture, hx(o.short), hx(o.longDate), hx(o.longTime), hx(value))
+	for _, c := range customs {
+		rep += " " + c[0] + " " + hx(c[1])
+	}
+	val, normFields := c10normal(value)
 	var code string
 	var has bool
 	pre := c10guard(func() string {
 		f := xl.NewFile(*o.options())
 		defer f.Close()
 		code, has = f.VerifC10BuiltInCode(id)
-		if styled {
+		if styled && customs == nil {
 			// NewStyle de-duplicates: an id that adds nothing gives the default style 0 (the raw value is read)
 			if st, err := f.NewStyle(&xl.Style{NumFmt: id}); err != nil || st == 0 {
 				styled = false
@@ -1923,6 +2147,12 @@ func c10glue(r *Run, d1904, styled bool, id int, o *c10o, value string) {
 			code = o.short + " hh:mm"
 		}
 	}
+	for _, c := range customs {
+		if c[0] == strconv.Itoa(id) { // the first custom element with the id wins
+			code, has = c[1], true
+			break
+		}
+	}
 	if !styled {
 		has = false
 	}
@@ -1933,7 +2163,18 @@ func c10glue(r *Run, d1904, styled bool, id int, o *c10o, value string) {
 		code = ""
 	}
 	api := func() string {
-		f := xl.NewFile(*o.options())
+		var f *xl.File
+		if customs != nil {
+			var err error
+			if f, err = xl.OpenReader(bytes.NewReader(c10customXLSX(id, customs, value)), *o.options()); err != nil {
+				panic(err)
+			}
+		} else {
+			f = xl.NewFile(*o.options())
+			if err := f.SetCellDefault("Sheet1", "A1", value); err != nil {
+				panic(err)
+			}
+		}
 		defer f.Close()
 		if d1904 {
 			t := true
@@ -1941,13 +2182,13 @@ func c10glue(r *Run, d1904, styled bool, id int, o *c10o, value string) {
 				panic(err)
 			}
 		}
-		if err := f.SetCellDefault("Sheet1", "A1", value); err != nil {
-			panic(err)
-		}
 		if styled {
-			st, err := f.NewStyle(&xl.Style{NumFmt: id})
-			if err != nil {
-				panic(err)
+			st := 1
+			if customs == nil {
+				var err error
+				if st, err = f.NewStyle(&xl.Style{NumFmt: id}); err != nil {
+					panic(err)
+				}
 			}
 			if err := f.SetCellStyle("Sheet1", "A1", "A1", st); err != nil {
 				panic(err)
@@ -1959,9 +2200,20 @@ func c10glue(r *Run, d1904, styled bool, id int, o *c10o, value string) {
 		}
 		return got
 	}
-	c := c10case{cellNumeric: true, d1904: d1904, value: value, code: code, o: o, api: api,
-		prefix: fmt.Sprintf("glue %s %d %d %s %s %s ", b01(styled), id, o.culture, hx(o.short), hx(o.longTime), codeField),
-		suffix: " R=1", rep: rep}
+	var cs strings.Builder
+	fmt.Fprintf(&cs, "%d", len(customs))
+	for _, c := range customs {
+		cs.WriteString(" " + c[0] + " " + hx(c[1]))
+	}
+	c := c10case{cellNumeric: true, d1904: d1904, value: val, code: code, o: o, api: api,
+		prefix: fmt.Sprintf("glue %s %d %d %s %s %s %s %s ", b01(styled), id, o.culture, hx(o.short), hx(o.longTime), codeField, cs.String(), normFields),
+		suffix: " R=1 N=1", rep: rep}
 	r.Stat("glue")
+	if customs != nil {
+		r.Stat("glue:custom")
+	}
+	if val != value {
+		r.Stat("glue:normalised")
+	}
 	c10fmt(r, c)
 }
